@@ -272,6 +272,29 @@ def run(repo: Repo, tier: str) -> Report:
 
     # date arm
     s_date = dkd_assign(arms["date"], "date")
+    # locals of the arm (an alias of the argument, named fields, a named sub-dekad index) are replaced by their definitions
+    import copy as _copy
+    _env: Dict[str, ast.AST] = {}
+
+    class _Sub(ast.NodeTransformer):
+        def visit_Name(self, node):
+            if isinstance(node.ctx, ast.Load) and node.id in _env:
+                return _copy.deepcopy(_env[node.id])
+            return node
+    for s in arms["date"]:
+        if s is s_date:
+            break
+        if isinstance(s, ast.Assign) and len(s.targets) == 1:
+            t_, v_ = s.targets[0], s.value
+            if isinstance(t_, ast.Name):
+                _env[t_.id] = _Sub().visit(_copy.deepcopy(v_))
+            elif isinstance(t_, ast.Tuple) and isinstance(v_, ast.Tuple) and len(t_.elts) == len(v_.elts) and all(isinstance(e_, ast.Name) for e_ in t_.elts):
+                vals = [_Sub().visit(_copy.deepcopy(e_)) for e_ in v_.elts]
+                for e_, val in zip(t_.elts, vals):
+                    _env[e_.id] = val
+    if _env:
+        s_date = ast.copy_location(ast.Assign(targets=s_date.targets, value=_Sub().visit(_copy.deepcopy(s_date.value))), s_date)
+        ast.fix_missing_locations(s_date)
     alias = {}
     for s in arms["date"]:
         if isinstance(s, ast.Assign) and isinstance(s.targets[0], ast.Name) and isinstance(s.value, ast.Name):
